@@ -10,18 +10,23 @@ Clause(o) ==
     LET n == Len(o.kinds)
         hasCorr == o.corr # "none"
         corrFails == hasCorr /\ Fails(o.kinds[1])
+        \* a feature the backend lacks is reported by NotImplementedError when errors are not collected (the repository's
+        \* tests pin that), and as a Sigma error record when they are
+        NIE == "NotImplementedError"
         aloneBad == {i \in 1..n :
-                       IF Fails(o.kinds[i]) THEN o.alone[i].ok \/ ~o.alone[i].sigma
+                       IF o.kinds[i] = "failU" THEN o.alone[i].ok \/ o.alone[i].exc # NIE
+                       ELSE IF Fails(o.kinds[i]) THEN o.alone[i].ok \/ ~o.alone[i].sigma
                        ELSE ~o.alone[i].ok \/ Len(o.alone[i].out) # NQueries(o.kinds[i])}
         wantOut == Concat([i \in 1..n |-> IF Fails(o.kinds[i]) \/ (i = 1 /\ o.corr = "nogen") THEN <<>> ELSE o.alone[i].out])
                    \o (IF hasCorr /\ ~corrFails THEN <<o.corr_alone.out[Len(o.corr_alone.out)]>> ELSE <<>>)
         failing == SelectSeq([i \in 1..n |-> i], LAMBDA i : Fails(o.kinds[i]))
-        wantErr == [j \in 1..Len(failing) |-> <<failing[j], o.alone[failing[j]].exc>>]
+        wantErr == [j \in 1..Len(failing) |-> <<failing[j], IF o.kinds[failing[j]] = "failU" THEN "SigmaFeatureNotSupportedByBackendError"
+                                                             ELSE o.alone[failing[j]].exc>>]
         anyFail == failing # <<>> \/ corrFails
     IN
     IF aloneBad # {} THEN "KindAsSpecified"
     ELSE IF hasCorr /\ ~corrFails /\ (~o.corr_alone.ok \/ Len(o.corr_alone.out) = 0) THEN "KindAsSpecified:correlation"
-    ELSE IF ~o.coll.ok /\ ~o.coll.sigma THEN "NonSigmaException"
+    ELSE IF ~o.coll.ok /\ ~o.coll.sigma /\ ~(~o.collect /\ failing # <<>> /\ o.kinds[failing[1]] = "failU" /\ o.coll.exc = NIE) THEN "NonSigmaException"
     ELSE IF o.collect THEN
         (IF ~o.coll.ok THEN "CollectingBackendRaised"
          ELSE IF o.coll.out # wantOut THEN
